@@ -1,6 +1,8 @@
 package main
 
 import (
+	"os"
+	"runtime/debug"
 	"fmt"
 	"regexp"
 	"go/constant"
@@ -209,6 +211,9 @@ func (vc *VC) assumeLemma(t Term) {
 
 func (vc *VC) fresh(prefix, sort string) Term {
 	if vc.noname > 0 {
+		if os.Getenv("KVC_DEBUG_PANIC") != "" {
+			debug.PrintStack()
+		}
 		panic(specErr("a quantified specification reaches code that needs a fresh symbol (" + prefix + "); use a pure spec function instead"))
 	}
 	vc.ctr++
